@@ -110,6 +110,14 @@ def readStream (bytes : Bytes) (ext : Ext) : String :=
       s!" | meta name={toHex f.fileName} raw={toHex f.fileNameRaw} mode={showOpt f.unixMode} comment={toHex f.fileComment}"
     s!"visit=ok files={files.length} metas={metas.length}" ++ String.join fs ++ String.join ms
 
+def readStreamC (bytes : Bytes) (ext : Ext) (pattern : List Nat) : String :=
+  match (streamEntriesC ext pattern (bytes.length / 30 + 1) 0).runPure (Dev.ofBytes bytes) with
+  | (.err e, _) => "end=" ++ (Out.className e).replace " " ":"
+  | (.panic s, _) => "end=panic:" ++ s
+  | (.ok files, _) =>
+    let fs := files.map fun (f, res) => s!" | {toHex f.fileName} m={f.method.toU16.toNat} got={showOutBytes res}"
+    s!"end=ok files={files.length}" ++ String.join fs
+
 def opRead (op : String) (a : Args) : Option String := do
   let bytes ← a.hex? "bytes"
   let ext := mkExt (parseCodec ((a.get? "codec").getD "-"))
@@ -120,6 +128,9 @@ def opRead (op : String) (a : Args) : Option String := do
       | none => none
     some (readSeek bytes pw ext)
   | "read.stream" => some (readStream bytes ext)
+  | "read.streamc" =>
+    let pat ← (a.get? "consume").bind natList?
+    some (readStreamC bytes ext (if pat.isEmpty then [0] else pat))
   | _ => none
 
 end Driver
